@@ -1,6 +1,7 @@
 package main
 
 import (
+	"bytes"
 	"fmt"
 	"reflect"
 	"strings"
@@ -320,7 +321,7 @@ func corrC14(outDir string, seed uint64, tier string, replay string) *report {
 			obs = "(Some " + got + ")"
 			if el > 50*time.Millisecond {
 				slow++
-				rep.fail(fmt.Sprintf("%+v", a), "prompt rejection", el.String(), "rejection is not prompt (something was derived first)")
+				rep.fail(fmt.Sprintf("scheme tag %d, password of %d bytes, salt %q, numbers %v, options %v/%q/%d", a.tag, len(a.pw), a.salt, a.nums, a.hasOpts, a.prefix, a.optNum), "prompt rejection", el.String(), "rejection is not prompt (something was derived first)")
 			}
 		}
 		if got != want {
@@ -350,7 +351,9 @@ func corrC14(outDir string, seed uint64, tier string, replay string) *report {
 		if strings.HasPrefix(got, "(untyped") {
 			obs = "(Some KMissing)"
 		}
-		cs.add(fmt.Sprintf("(%d, %s, %s, %s, %s)", a.tag, coqList(bl), coqList(nl), o, obs), map[string]interface{}{"args": fmt.Sprintf("%+v", a), "kind": kind})
+		if len(a.pw) <= 2000 { // very long passwords: direct oracle only (a list literal of 256 K bytes overflows coqc's stack)
+			cs.add(fmt.Sprintf("(%d, %s, %s, %s, %s)", a.tag, coqList(bl), coqList(nl), o, obs), map[string]interface{}{"args": fmt.Sprintf("%+v", a), "kind": kind})
+		}
 		rep.count(fmt.Sprintf("%+v", a), true)
 		rep.bump(kind)
 		if want != "" && len(rep.Samples) < 8 && r.intn(50) == 0 {
@@ -404,6 +407,17 @@ func corrC14(outDir string, seed uint64, tier string, replay string) *report {
 				}
 			}
 		}
+		// a two-byte UTF-8 character whose code point, cut to a byte, is an alphabet symbol, in place of two salt symbols
+		if s.tag != 3 && s.okSalt >= 2 {
+			for pos := 0; pos+1 < s.okSalt; pos++ {
+				for _, b := range []byte{'a', 'A', '.', '/', '0', 'z'} {
+					a := base()
+					a.salt = []byte(r.str(s.okSalt, s.alpha))
+					a.salt[pos], a.salt[pos+1] = 0xC4|b>>6, 0x80|b&0x3F
+					try(a, "salt_utf8_lowbyte")
+				}
+			}
+		}
 		// numeric arguments at the bounds
 		bounds := map[int][][]int64{
 			5:  {{999}, {1000}, {999999999}, {1000000000}, {0}, {4294967295}},
@@ -418,6 +432,16 @@ func corrC14(outDir string, seed uint64, tier string, replay string) *report {
 			a := base()
 			a.nums = ns
 			try(a, "numeric_bound")
+			// the same numbers with a 256 KiB password: a rejection must not depend on the password's length (nothing is
+			// derived, not even the password's digest); in-domain numbers are skipped here
+			if refGuard(a) != "" && s.tag != 3 && s.tag != 9 && s.tag != 8 {
+				al := base()
+				al.nums = ns
+				al.pw = bytes.Repeat([]byte("long password "), 18725)
+				if refGuard(al) != "" {
+					try(al, "numeric_bound_long_password")
+				}
+			}
 		}
 		for i := 0; i < 40 && len(s.nums) > 0; i++ {
 			a := base()
